@@ -33,6 +33,18 @@ mod router;
 mod segments;
 mod server;
 
+/// Verification hooks, compiled only with the `verif-hooks` feature
+#[cfg(feature = "verif-hooks")]
+pub mod verif {
+    pub use crate::link::local::DeferredLink;
+    pub use crate::link::network::{Network, N};
+    pub use crate::link::remote::{mqtt_connect, RemoteLink};
+    pub use crate::router::iobufs::{Incoming, Outgoing};
+    pub use crate::router::verif::{VerifConnection, VerifGroup, VerifSnapshot};
+    pub use crate::router::{Ack, Connection, Event, Print, ShadowRequest};
+    pub use crate::segments::{CommitLog, Position, Storage};
+}
+
 pub type ConnectionId = usize;
 pub type RouterId = usize;
 pub type NodeId = usize;
